@@ -13,8 +13,8 @@ KIND_PROP = {"a": "C06", "i": "C06", "c": "C06", "d": "C06", "y": "C06", "pu": "
 REGNAMES = [0, 97, 98] + list(range(49, 58))
 
 
-def run_vi(ctx, args, stdin_bytes, env_extra=None, timeout=20, cwd=None, trace=True):
-    """run the traced binary; returns (records, rc, stderr, timed_out)"""
+def run_vi(ctx, args, stdin_bytes, env_extra=None, timeout=20, cwd=None, trace=True, fsize=None):
+    """run the traced binary; returns (records, rc, stderr, timed_out); fsize bounds the size of any file it writes"""
     d = ctx.build()
     work = cwd or tempfile.mkdtemp(prefix="run-", dir=ctx.scratch)
     tr = os.path.join(work, "trace.ndjson") if trace else None
@@ -24,13 +24,15 @@ def run_vi(ctx, args, stdin_bytes, env_extra=None, timeout=20, cwd=None, trace=T
         env["NEATVI_VERIF_TRACE"] = tr
     env.update(env_extra or {})
     try:
-        p = subprocess.run([os.path.join(d, "vi")] + args, input=stdin_bytes, capture_output=True, env=env,
+        p = subprocess.run((["prlimit", "--fsize=%d" % fsize] if fsize else []) + [os.path.join(d, "vi")] + args, input=stdin_bytes, capture_output=True, env=env,
                            cwd=work, timeout=timeout)
         rc, err, to = p.returncode, p.stderr.decode("utf-8", "replace"), False
     except subprocess.TimeoutExpired as e:
         rc, err, to = -9, (e.stderr or b"").decode("utf-8", "replace"), True
     recs = []
-    if tr and os.path.exists(tr):
+    if tr and os.path.exists(tr) and fsize and os.path.getsize(tr) >= fsize - 65536:
+        recs, to = [{"ev": "runaway"}], True        # a trace this long is a loop that no longer reads its input
+    elif tr and os.path.exists(tr):
         with open(tr, "rb") as f:
             for ln in f:
                 try:
